@@ -82,38 +82,40 @@ func VfC17_ParseMetadata() {
 
 // hC17Kinds: one minimal, well-typed spelling of each of the 28 specialised
 // node kinds (each accepted by the unchanged parser, each a print fixpoint).
-// !6 is a DIGlobalVariable, !8 an empty tuple, !9 a DIFile in the carrier.
+// Carrier: !4 an empty tuple, !5 a non-empty tuple, !6 a DIGlobalVariable,
+// !8 another empty tuple, !9 a DIFile; different fields of one node refer to
+// different carrier nodes, so that a dropped or misdirected reference shows.
 var hC17Kinds = [...]struct {
 	text, prefix string
 }{
 	{`!DIBasicType(name: "int", size: 32, encoding: DW_ATE_signed)`, "!DIBasicType("},
 	{`!DICommonBlock(scope: !8, declaration: null, name: "a")`, "!DICommonBlock("},
 	{`distinct !DICompileUnit(language: DW_LANG_C99, file: !9, producer: "p", isOptimized: false, runtimeVersion: 0, emissionKind: FullDebug)`, "distinct !DICompileUnit("},
-	{`!DICompositeType(tag: DW_TAG_structure_type, name: "s", size: 32, elements: !8)`, "!DICompositeType("},
+	{`!DICompositeType(tag: DW_TAG_structure_type, name: "s", size: 32, elements: !5)`, "!DICompositeType("},
 	{`!DIDerivedType(tag: DW_TAG_pointer_type, baseType: !8, size: 64)`, "!DIDerivedType("},
 	{`!DIEnumerator(name: "e", value: 1)`, "!DIEnumerator("},
 	{`!DIExpression(DW_OP_deref)`, "!DIExpression("},
 	{`!DIFile(filename: "b.c", directory: "/x")`, "!DIFile("},
-	{`distinct !DIGlobalVariable(name: "g", scope: !8, file: !9, line: 1, type: !8, isLocal: false, isDefinition: true)`, "distinct !DIGlobalVariable("},
+	{`distinct !DIGlobalVariable(name: "g", scope: !8, file: !9, line: 1, type: !4, isLocal: false, isDefinition: true)`, "distinct !DIGlobalVariable("},
 	{`!DIGlobalVariableExpression(var: !6, expr: !DIExpression())`, "!DIGlobalVariableExpression("},
-	{`!DIImportedEntity(tag: DW_TAG_imported_module, scope: !8, entity: !8, line: 1)`, "!DIImportedEntity("},
+	{`!DIImportedEntity(tag: DW_TAG_imported_module, scope: !8, entity: !4, line: 1)`, "!DIImportedEntity("},
 	{`!DILabel(scope: !8, name: "l", file: !9, line: 1)`, "!DILabel("},
 	{`distinct !DILexicalBlock(scope: !8, file: !9, line: 1, column: 1)`, "distinct !DILexicalBlock("},
 	{`!DILexicalBlockFile(scope: !8, file: !9, discriminator: 0)`, "!DILexicalBlockFile("},
-	{`!DILocalVariable(name: "x", scope: !8, file: !9, line: 1, type: !8)`, "!DILocalVariable("},
+	{`!DILocalVariable(name: "x", scope: !8, file: !9, line: 1, type: !4)`, "!DILocalVariable("},
 	{`!DILocation(line: 1, column: 1, scope: !8)`, "!DILocation("},
 	{`!DIMacro(type: DW_MACINFO_define, line: 1, name: "M", value: "1")`, "!DIMacro("},
-	{`!DIMacroFile(line: 0, file: !9, nodes: !8)`, "!DIMacroFile("},
+	{`!DIMacroFile(line: 0, file: !9, nodes: !5)`, "!DIMacroFile("},
 	{`!DIModule(scope: null, name: "m")`, "!DIModule("},
 	{`!DINamespace(name: "n", scope: null)`, "!DINamespace("},
-	{`!DIObjCProperty(name: "p", file: !9, line: 1, type: !8)`, "!DIObjCProperty("},
+	{`!DIObjCProperty(name: "p", file: !9, line: 1, type: !4)`, "!DIObjCProperty("},
 	{`!DIStringType(name: "s", size: 32)`, "!DIStringType("},
-	{`distinct !DISubprogram(name: "f", scope: !9, file: !9, line: 1, type: !8, spFlags: DISPFlagDefinition, retainedNodes: !8)`, "distinct !DISubprogram("},
+	{`distinct !DISubprogram(name: "f", scope: !9, file: !9, line: 1, type: !8, spFlags: DISPFlagDefinition, retainedNodes: !4, thrownTypes: !5)`, "distinct !DISubprogram("},
 	{`!DISubrange(count: 3)`, "!DISubrange("},
 	{`!DISubroutineType(types: !8)`, "!DISubroutineType("},
 	{`!DITemplateTypeParameter(name: "T", type: !8)`, "!DITemplateTypeParameter("},
 	{`!DITemplateValueParameter(name: "V", type: !8, value: i32 1)`, "!DITemplateValueParameter("},
-	{`!GenericDINode(tag: DW_TAG_structure_type, header: "h", operands: {!8})`, "!GenericDINode("},
+	{`!GenericDINode(tag: DW_TAG_structure_type, header: "h", operands: {!8, !5})`, "!GenericDINode("},
 }
 
 func hC17Def(m *ir.Module, id int64) metadata.Definition {
@@ -166,7 +168,7 @@ func hC17FieldRefs(m *ir.Module, id int64, text string) bool {
 	}
 	fields := hMDFields(node)
 	ok := true
-	for _, n := range [...]int64{6, 8, 9} {
+	for _, n := range [...]int64{4, 5, 6, 8, 9} {
 		if !hContains(text, "!"+string(rune('0'+n))) {
 			continue
 		}
@@ -194,9 +196,10 @@ func hC17FieldRefs(m *ir.Module, id int64, text string) bool {
 func VfC17_Kinds() {
 	k := vfChoice("kind", len(hC17Kinds))
 	d := vfString("id", 1)
-	vfAssume(vfAnd(d[0] >= '0', d[0] <= '5'))
+	vfAssume(vfAnd(d[0] >= '0', d[0] <= '3'))
 	id := int64(d[0] - '0')
 	src := "!nm = !{!" + d + "}\n!" + d + " = " + hC17Kinds[k].text + "\n" +
+		"!4 = !{}\n!5 = !{!8}\n" +
 		"!6 = distinct !DIGlobalVariable(name: \"gg\", scope: !8, file: !9, line: 2, type: !8, isLocal: true, isDefinition: true)\n" +
 		"!7 = !{!" + d + "}\n!8 = !{}\n!9 = !DIFile(filename: \"a.c\", directory: \"/\")\n"
 	m, err := ParseString("t.ll", src)
@@ -206,7 +209,7 @@ func VfC17_Kinds() {
 	if err != nil {
 		return
 	}
-	vfAssert("C17.kinds.five-defs", len(m.MetadataDefs) == 5)
+	vfAssert("C17.kinds.seven-defs", len(m.MetadataDefs) == 7)
 	vfAssert("C17.kinds.parsed", hC17KindOK(m, id, hC17Kinds[k].prefix))
 	vfAssert("C17.kinds.field-references-are-the-definitions", hC17FieldRefs(m, id, hC17Kinds[k].text))
 	y := m.String()
@@ -219,7 +222,7 @@ func VfC17_Kinds() {
 	vfAssert("C17.kinds.reparsed", hC17KindOK(m2, id, hC17Kinds[k].prefix))
 	vfAssert("C17.kinds.reparsed-field-references", hC17FieldRefs(m2, id, hC17Kinds[k].text))
 	// renumber from scratch: the node is first in the list of definitions
-	// (smallest ID), so it becomes !0 and the carrier nodes !1..!4
+	// (smallest ID), so it becomes !0 and the carrier nodes !1..!6
 	for _, def := range m2.MetadataDefs {
 		def.SetID(-1)
 	}
@@ -235,8 +238,8 @@ func VfC17_Kinds() {
 		return
 	}
 	node := hC17Def(m3, 0)
-	tup, isTup := hC17Def(m3, 2).(*metadata.Tuple)
-	vfAssert("C17.kinds.renumbered-reference", vfAnd(vfAnd(node != nil, isTup), len(m3.MetadataDefs) == 5))
+	tup, isTup := hC17Def(m3, 4).(*metadata.Tuple)
+	vfAssert("C17.kinds.renumbered-reference", vfAnd(vfAnd(node != nil, isTup), len(m3.MetadataDefs) == 7))
 	if node != nil {
 		if isTup {
 			if len(tup.Fields) == 1 {
